@@ -92,20 +92,21 @@ Qed.
 (* Back k then forward k (0 <= k, k entries available): same entry, same text,
    all working lines untouched. *)
 Lemma back_forth c s k :
-  Inv s -> ehs s = false -> 0 <= k <= wi s ->
+  thr (th s) = false -> Inv s -> ehs s = false -> 0 <= k <= wi s ->
   let s1 := step_state c s (OBack k) in
   let s2 := step_state c s1 (OFwd k) in
   wi s1 = wi s - k /\ wi s2 = wi s /\ wl s2 = wl s /\ text s2 = text s.
 Proof.
-  intros HI He Hk s1 s2.
-  assert (F1 : frame s s1) by (apply nav_step_frame; exact I).
-  assert (F2 : frame s1 s2) by (apply nav_step_frame; exact I).
+  intros Ht HI He Hk s1 s2.
+  assert (Ht1 : thr (th s1) = false) by (unfold s1; rewrite step_thr; exact Ht).
+  assert (F1 : frame s s1) by (apply nav_step_frame; [exact Ht | exact I]).
+  assert (F2 : frame s1 s2) by (apply nav_step_frame; [exact Ht1 | exact I]).
   assert (W1 : wi s1 = wi s - k).
-  { unfold s1. rewrite step_state_eq. cbn [step_core ok fst snd]. rewrite flush_wi.
+  { unfold s1. rewrite step_state_eq by exact Ht. cbn [step_core ok fst snd]. rewrite flush_wi.
     apply history_backward_nofilter; assumption. }
-  destruct F1 as (L1 & _ & _ & _ & E1). destruct F2 as (L2 & _).
+  destruct F1 as (L1 & _ & _ & _ & E1 & _). destruct F2 as (L2 & _).
   assert (W2 : wi s2 = wi s).
-  { unfold s2. rewrite step_state_eq. cbn [step_core ok fst snd]. rewrite flush_wi.
+  { unfold s2. rewrite step_state_eq by exact Ht1. cbn [step_core ok fst snd]. rewrite flush_wi.
     rewrite history_forward_nofilter; unfold Inv in HI; try rewrite L1; try lia. congruence. }
   repeat split; auto; [congruence|].
   apply text_eq; congruence.
@@ -114,7 +115,7 @@ Qed.
 (* Before the count fix (finding C14-F2): history_backward(0) walked to the
    oldest entry, history_forward(0) to the newest, instead of staying. *)
 Definition zero_witness : hs :=
-  mk [[97]; [98]; [99]] 1 0 None None V_UNKNOWN false (mkst [[98]; [97]] [[97]; [98]] true) (Some 2) true false false.
+  mk [[97]; [98]; [99]] 1 0 None None V_UNKNOWN false (mkst [[98]; [97]] [[97]; [98]] true) (Some 2) true false false (mkth false 0 false [] 0).
 
 Lemma back_forth_zero_pinned_refuted :
   exists c s, Inv s /\ ehs s = false /\ hst s = None /\ 0 <= 0 <= wi s /\
@@ -249,9 +250,9 @@ Definition is_hist_step (o : op) : Prop :=
 
 (* every entry reached by an up/down step starts with the prefix *)
 Lemma hist_step_prefix c s o :
-  ehs s = true -> is_hist_step o -> reached_ok s (step_state c s o).
+  thr (th s) = false -> ehs s = true -> is_hist_step o -> reached_ok s (step_state c s o).
 Proof.
-  intros He Ho. rewrite step_state_eq. unfold reached_ok. rewrite flush_wi, flush_text.
+  intros Ht He Ho. rewrite step_state_eq by exact Ht. unfold reached_ok. rewrite flush_wi, flush_text.
   destruct o; cbn [is_hist_step] in Ho; try contradiction; cbn [step_core ok fst snd].
   - apply history_backward_prefix; exact He.
   - apply history_forward_prefix; exact He.
@@ -275,9 +276,9 @@ Proof.
 Qed.
 
 Lemma nav_hst_stable c s o p :
-  is_nav o -> ehs s = true -> hst s = Some p -> hst (step_state c s o) = Some p.
+  thr (th s) = false -> is_nav o -> ehs s = true -> hst s = Some p -> hst (step_state c s o) = Some p.
 Proof.
-  intros Ho He Hh. rewrite step_state_eq, flush_hst.
+  intros Ht Ho He Hh. rewrite step_state_eq by exact Ht. rewrite flush_hst.
   destruct o; cbn [is_nav] in Ho; try contradiction; cbn [step_core ok fst snd].
   - apply history_backward_hst; assumption.
   - apply history_forward_hst; assumption.
